@@ -4,7 +4,7 @@ From MV Require Import WorkModel.
 Import ListNotations.
 (* value of the wait-loop guard for (n_working, work_head != NULL) =
    (0, false); (0, true); (non-zero, false); (non-zero, true) *)
-Definition code_wait_tab : list bool := [false; false; false; true].
-Definition code_fini_tab : list bool := [false; false; false; true].
+Definition code_wait_tab : list bool := [false; true; true; true].
+Definition code_fini_tab : list bool := [false; true; true; true].
 Definition code_wait_cond : nat -> bool -> bool := tabguard code_wait_tab.
 Definition code_fini_cond : nat -> bool -> bool := tabguard code_fini_tab.
